@@ -1,19 +1,545 @@
-// Package c10: STUB — property C10 is not built yet.
+// Package c10: termination of one HTTP/2 relay session (h2.Config.Proxy / relay.relayFrames).
+//
+// Every case drives ONE real session: a raw http2.Framer client over net.Pipe <-> h2.Config.Proxy
+// <-> a raw http2.Framer TLS server on loopback. The ops are the environment events of the Lean
+// process model (Model/H2Session.lean) annotated with the concrete frame that realises them; the
+// model driver answers what it predicts for `probe`/`finish` (returned?, upstream closed?, which
+// kinds of session goroutines exist) and the harness prints the same line from real observations
+// (return of Proxy, EOF at the TLS server, goroutine dump filtered to martian/v3/h2).
 package c10
 
-import "verif/harness/internal/core"
+import (
+	"fmt"
+	"net"
+	"strconv"
+	"strings"
+	"time"
+
+	"golang.org/x/net/http2"
+
+	"verif/harness/internal/core"
+)
 
 type P struct{}
 
 func init() { core.Register(P{}) }
 
-func (P) ID() string   { return "C10" }
-func (P) Rule() string { return "stub" }
-func (P) Gen(r *core.Rand, tier string, emit func([]string)) {}
-func (P) NewExec() core.Exec                                   { return ex{} }
-func (P) Nontrivial(ops []string, impl []string) bool         { return false }
+func (P) ID() string { return "C10" }
+func (P) Rule() string {
+	return "case = one real relay session (raw h2 client over net.Pipe <-> h2.Config.Proxy <-> raw h2 TLS server) brought into a state " +
+		"(idle | mid-stream on 1-4 streams | DATA queued behind a zero stream window in either direction, optionally partly released | " +
+		"s2c output channel full behind a client that stopped reading, optionally combined with queued DATA) followed by one terminating " +
+		"event (client EOF, server EOF, write failure toward the client noticed by the s2c reader / the s2c writer / the c2s reader, server " +
+		"reset + write toward it, malformed frame or bad HPACK from either side, proxy closing) and optional trailing traffic; distinct by " +
+		"hash of the op list; non-trivial when the case has a terminating event and the finish line was produced after Proxy was given the bound"
+}
 
-type ex struct{}
+func (P) Nontrivial(ops []string, impl []string) bool {
+	term := false
+	for _, o := range ops {
+		if isTerminating(strings.Fields(o)) {
+			term = true
+		}
+	}
+	return term && len(impl) > 0 && strings.HasPrefix(impl[len(impl)-1], "returned=")
+}
 
-func (ex) Do(op string) core.Result { return core.Result{Impl: "bad-op"} }
-func (ex) Close()                   {}
+func isTerminating(f []string) bool {
+	if len(f) >= 2 && f[0] == "rep" {
+		f = f[2:]
+	}
+	if len(f) >= 2 && f[0] == "env" && (f[1] == "closing" || f[1] == "failwrites") {
+		return true
+	}
+	if len(f) >= 4 && f[0] == "env" && f[1] == "deliver" {
+		switch f[3] {
+		case "eof", "err", "bad":
+			return true
+		case "direct":
+			return len(f) >= 5 && f[4] == "0"
+		}
+	}
+	return false
+}
+
+const (
+	returnBound = 3 * time.Second // >= 20x the latency of a passing case (a few ms, reported in stats)
+	closeBound  = 1 * time.Second
+	leakBound   = 1 * time.Second
+)
+
+// confirmed counts, per failure class, how often a failing verdict was reproduced on fresh sessions in
+// this run. Once a class has reproduced twice, later cases of the class are not re-run and use bounds
+// divided by three (still >= 20x the passing latency of a few ms), so a tree on which every case
+// fails is still judged in minutes.
+var confirmed = map[string]int{}
+
+func anyConfirmed() bool {
+	for _, n := range confirmed {
+		if n >= 2 {
+			return true
+		}
+	}
+	return false
+}
+
+func scale(d time.Duration) time.Duration {
+	if anyConfirmed() {
+		return d / 3
+	}
+	return d
+}
+
+type runner struct {
+	s    *session
+	fail string // harness-level problem (not a property failure)
+}
+
+type ex struct {
+	r    *runner
+	hist []string
+}
+
+func (P) NewExec() core.Exec { return &ex{r: &runner{}} }
+
+func (e *ex) Close() {
+	if e.r.s != nil {
+		e.r.s.teardown()
+	}
+}
+
+func splitRep(op string) (int, []string) {
+	f := strings.Fields(op)
+	rep := 1
+	if len(f) >= 2 && f[0] == "rep" {
+		n, err := strconv.Atoi(f[1])
+		if err != nil || n < 0 || n > 100000 {
+			return 0, nil
+		}
+		rep, f = n, f[2:]
+	}
+	return rep, f
+}
+
+func (e *ex) Do(op string) core.Result {
+	rep, f := splitRep(op)
+	if len(f) == 0 {
+		return core.Result{Impl: "bad-op"}
+	}
+	switch f[0] {
+	case "finish":
+		return e.finish()
+	case "probe":
+		if e.r.s == nil {
+			return core.Result{Impl: "bad-op"}
+		}
+		return core.Result{Impl: e.r.s.obs()}
+	}
+	e.hist = append(e.hist, op)
+	out := "ok"
+	for i := 0; i < rep; i++ {
+		out = e.r.apply(f)
+		if out != "ok" {
+			break
+		}
+	}
+	return core.Result{Impl: out}
+}
+
+func u32(s string) uint32 {
+	n, _ := strconv.ParseUint(s, 10, 32)
+	return uint32(n)
+}
+
+// apply performs one op on the real session. Environment ops always answer "ok": whether the relay
+// takes the bytes is what the later observations are about.
+func (r *runner) apply(f []string) string {
+	if f[0] == "start" {
+		if r.s != nil {
+			return "bad-op"
+		}
+		s, err := startSession()
+		r.s = s
+		if err != nil {
+			r.fail = err.Error()
+			core.Count("start_failed")
+			return "start-failed"
+		}
+		return "ok"
+	}
+	s := r.s
+	if s == nil {
+		return "bad-op"
+	}
+	switch f[0] {
+	case "hint": // schedule hint for the model only
+		return "ok"
+	case "settle":
+		wc, ws := -1, -1
+		if len(f) >= 3 {
+			if n, err := strconv.Atoi(f[1]); err == nil {
+				wc = n
+			}
+			if n, err := strconv.Atoi(f[2]); err == nil {
+				ws = n
+			}
+		}
+		if wc < 0 && ws < 0 {
+			time.Sleep(30 * time.Millisecond)
+			return "ok"
+		}
+		ok := waitFor(500*time.Millisecond, func() bool {
+			c, _, _ := s.cstat.get()
+			sv, _, _ := s.sstat.get()
+			return (wc < 0 || c >= wc) && (ws < 0 || sv >= ws)
+		})
+		if !ok {
+			core.Count("settle_timeout")
+		}
+		time.Sleep(2 * time.Millisecond) // let the readers get back into their select
+		return "ok"
+	case "env":
+		if len(f) < 2 {
+			return "bad-op"
+		}
+		switch f[1] {
+		case "closing":
+			s.closeOnce.Do(func() { close(s.closing) })
+			s.markTerm("closing")
+			return "ok"
+		case "stall":
+			if len(f) == 3 && f[2] == "s2c" {
+				s.stallClient(true)
+				return "ok"
+			}
+			return "bad-op"
+		case "unstall":
+			if len(f) == 3 && f[2] == "s2c" {
+				s.stallClient(false)
+				if s.termed {
+					s.termAt = time.Now()
+				}
+				return "ok"
+			}
+			return "bad-op"
+		case "failwrites":
+			if len(f) == 3 && f[2] == "s2c" {
+				s.proxyEnd.failWrites.Store(true)
+				return "ok"
+			}
+			if len(f) == 3 && f[2] == "c2s" { // realised by `reset`
+				return "ok"
+			}
+			return "bad-op"
+		case "deliver":
+			return r.deliver(f[2:])
+		}
+	}
+	return "bad-op"
+}
+
+func (s *session) markTerm(why string) {
+	s.termed = true
+	s.termWhy = why
+	s.termAt = time.Now()
+}
+
+// deliver: f = <dir> <work…> : <concrete…>
+func (r *runner) deliver(f []string) string {
+	s := r.s
+	if len(f) < 2 {
+		return "bad-op"
+	}
+	dir := f[0]
+	if dir != "c2s" && dir != "s2c" {
+		return "bad-op"
+	}
+	i := 0
+	for i < len(f) && f[i] != ":" {
+		i++
+	}
+	if i+1 >= len(f) {
+		return "bad-op"
+	}
+	work, c := f[1:i], f[i+1:]
+	if isTerminating(append([]string{"env", "deliver", dir}, work...)) {
+		defer s.markTerm(dir + ":" + strings.Join(c, "-"))
+	} else if dir == "s2c" && s.proxyEnd.failWrites.Load() && len(work) >= 1 && (work[0] == "own" || work[0] == "direct") {
+		defer s.markTerm("write-toward-client-fails:" + strings.Join(c, "-")) // the relay's next write toward the client fails
+	}
+	var err error
+	switch c[0] {
+	case "headers":
+		if len(c) != 2 {
+			return "bad-op"
+		}
+		blk := s.headerBlock(dir, u32(c[1]))
+		err = s.write(dir, func(fr *http2.Framer) error {
+			return fr.WriteHeaders(http2.HeadersFrameParam{StreamID: u32(c[1]), BlockFragment: blk, EndHeaders: true})
+		})
+	case "data":
+		if len(c) != 3 {
+			return "bad-op"
+		}
+		n, _ := strconv.Atoi(c[2])
+		if n < 0 || n > 16384 {
+			return "bad-op"
+		}
+		err = s.write(dir, func(fr *http2.Framer) error { return fr.WriteData(u32(c[1]), false, make([]byte, n)) })
+	case "ping":
+		err = s.write(dir, func(fr *http2.Framer) error { return fr.WritePing(false, [8]byte{1, 2, 3}) })
+	case "wupdate":
+		if len(c) != 3 {
+			return "bad-op"
+		}
+		err = s.write(dir, func(fr *http2.Framer) error { return fr.WriteWindowUpdate(u32(c[1]), u32(c[2])) })
+	case "settings-iw":
+		if len(c) != 2 {
+			return "bad-op"
+		}
+		err = s.write(dir, func(fr *http2.Framer) error {
+			return fr.WriteSettings(http2.Setting{ID: http2.SettingInitialWindowSize, Val: u32(c[1])})
+		})
+	case "rst":
+		if len(c) != 2 {
+			return "bad-op"
+		}
+		err = s.write(dir, func(fr *http2.Framer) error { return fr.WriteRSTStream(u32(c[1]), http2.ErrCodeCancel) })
+	case "malformed": // DATA on stream 0: Framer.ReadFrame answers a connection error (PROTOCOL_ERROR)
+		err = s.write(dir, func(fr *http2.Framer) error { return fr.WriteRawFrame(http2.FrameData, 0, 0, []byte("x")) })
+	case "badhpack":
+		if len(c) != 2 {
+			return "bad-op"
+		}
+		err = s.write(dir, func(fr *http2.Framer) error {
+			return fr.WriteHeaders(http2.HeadersFrameParam{StreamID: u32(c[1]), BlockFragment: []byte{0xff, 0xff, 0xff, 0xff, 0xff, 0xff, 0xff}, EndHeaders: true})
+		})
+	case "close":
+		if dir == "c2s" {
+			if len(c) >= 3 && c[1] == "race" { // close only once the server has seen K released DATA frames
+				k, _ := strconv.Atoi(c[2])
+				s.armed = waitFor(300*time.Millisecond, func() bool { _, d, _ := s.sstat.get(); return d >= k })
+				if !s.armed {
+					core.Count("race_not_armed")
+				}
+			}
+			s.cClosed = true
+			s.cliConn.Close()
+		} else {
+			s.sClosedW = true
+			if s.srvConn != nil {
+				err = s.srvConn.CloseWrite()
+			}
+		}
+	case "reset":
+		if dir != "s2c" {
+			return "bad-op"
+		}
+		s.sReset = true
+		if s.srvConn != nil {
+			if tc, ok := s.srvConn.NetConn().(*net.TCPConn); ok {
+				tc.SetLinger(0)
+			}
+			s.srvConn.NetConn().Close()
+		}
+	default:
+		return "bad-op"
+	}
+	if err != nil {
+		core.Count("env_write_error") // the relay did not take the bytes (closed / wedged); an observation, not a failure
+	}
+	return "ok"
+}
+
+// obs: the canonical observation line, also produced by the model.
+func (s *session) obs() string {
+	ret := 0
+	if s.isReturned() {
+		ret = 1
+	}
+	_, _, ended := s.sstat.get()
+	sc := "open"
+	if ended || (s.sReset && ret == 1) {
+		// after a reset by the server itself the proxy's close cannot be observed any more
+		sc = "closed"
+	}
+	return fmt.Sprintf("returned=%d sc=%s left=%s", ret, sc, kindsOf(s.mine()))
+}
+
+type verdict struct {
+	obs, fail, sig string
+	returned       bool
+	proven         bool // the goroutine dump shows a permanent block, the verdict does not depend on the clock
+	latency        time.Duration
+}
+
+// finish waits (bounded) for Proxy to return, then does what the caller of Proxy does (closes the
+// client connection), and evaluates the property over the observations.
+func (s *session) finish() verdict {
+	var v verdict
+	bound := 150 * time.Millisecond
+	if s.termed {
+		bound = scale(returnBound) - time.Since(s.termAt)
+		if bound < 100*time.Millisecond {
+			bound = 100 * time.Millisecond
+		}
+	}
+	deadline := time.After(bound)
+	tick := time.NewTicker(250 * time.Millisecond)
+	defer tick.Stop()
+	proven := 0
+wait:
+	for {
+		select {
+		case <-s.returned:
+			v.returned = true
+			if s.termed {
+				v.latency = s.returnedAt.Sub(s.termAt)
+			}
+			break wait
+		case <-deadline:
+			break wait
+		case <-tick.C:
+			// A reader in `chan send` on the peer's output whose only receiver (the peer's writer) has
+			// exited can never continue: no need to sit out the rest of the bound (>= 750 ms have passed).
+			if s.termed && s.provenDeadlock() {
+				if proven++; proven >= 3 {
+					v.proven = true
+					break wait
+				}
+			} else {
+				proven = 0
+			}
+		}
+	}
+	if !v.returned {
+		gs := s.mine()
+		v.obs = s.obs()
+		if s.termed {
+			site := "none"
+			for _, g := range gs {
+				if g.kind == "reader" {
+					// the most specific blocked reader names the class
+					if site == "none" || site == "select" || g.site == "peer-emit" {
+						site = g.site
+					}
+				}
+			}
+			v.sig = "c10:not-returned:" + site
+			v.fail = fmt.Sprintf("Config.Proxy has not returned %v after the terminating event %q; session goroutines left: %s (reader blocked at: %s)",
+				returnBound, s.termWhy, kindsOf(gs), site)
+		}
+		return v
+	}
+	// the caller of Proxy (Proxy.handleLoop) closes the client connection afterwards
+	s.proxyEnd.Close()
+	closedSeen := s.sReset || waitFor(scale(closeBound), func() bool { _, _, e := s.sstat.get(); return e })
+	if closedSeen {
+		waitFor(scale(leakBound), func() bool { return len(s.mine()) == 0 })
+	}
+	left := s.mine()
+	v.obs = s.obs()
+	if !s.termed {
+		return v
+	}
+	switch {
+	case !closedSeen:
+		v.sig = "c10:upstream-open-after-return"
+		v.fail = fmt.Sprintf("Config.Proxy returned after %q but the TLS server saw no EOF/close on its accepted connection within %v", s.termWhy, closeBound)
+	case len(left) > 0:
+		v.sig = "c10:goroutines-left:" + kindsOf(left)
+		v.fail = fmt.Sprintf("Config.Proxy returned after %q and the client connection was closed, but %v later session goroutines remain: %s\n%s",
+			s.termWhy, leakBound, kindsOf(left), left[0].text)
+	}
+	return v
+}
+
+// provenDeadlock: a reader is blocked sending into the peer's output and only one writer goroutine exists.
+func (s *session) provenDeadlock() bool {
+	writers, peerEmit := 0, false
+	for _, g := range s.mine() {
+		if g.kind == "writer" {
+			writers++
+		}
+		if g.kind == "reader" && g.site == "peer-emit" && strings.HasPrefix(g.state, "chan send") {
+			peerEmit = true
+		}
+	}
+	return peerEmit && writers == 1
+}
+
+func replay(hist []string) (verdict, *session) {
+	r := &runner{}
+	for _, op := range hist {
+		rep, f := splitRep(op)
+		for i := 0; i < rep && len(f) > 0; i++ {
+			if r.apply(f) != "ok" {
+				break
+			}
+		}
+	}
+	if r.s == nil {
+		return verdict{obs: "bad-op"}, nil
+	}
+	return r.s.finish(), r.s
+}
+
+func isRace(hist []string) bool {
+	for _, h := range hist {
+		if strings.Contains(h, "close race") {
+			return true
+		}
+	}
+	return false
+}
+
+func (e *ex) finish() core.Result {
+	if e.r.s == nil {
+		return core.Result{Impl: "bad-op"}
+	}
+	if e.r.fail != "" {
+		return core.Result{Impl: "start-failed"}
+	}
+	v := e.r.s.finish()
+	if v.returned && v.latency > 0 {
+		ms := int(v.latency / time.Millisecond)
+		if ms > core.Stats["max_return_latency_ms"] {
+			core.Stats["max_return_latency_ms"] = ms
+		}
+	}
+	switch {
+	case isRace(e.hist) && v.returned && e.r.s.armed:
+		// the scheduling window of the directed F10c race was missed: try again on fresh sessions
+		for i := 0; i < 2 && v.returned; i++ {
+			core.Count("race_retry")
+			v2, s2 := replay(e.hist)
+			if s2 != nil {
+				s2.teardown()
+			}
+			v = v2
+		}
+	case v.fail != "" && !v.proven && confirmed[v.sig] < 2:
+		// a verdict that depends on a wall-clock bound counts only if it reproduces (DESIGN App. D)
+		sig := v.sig
+		for i := 0; i < 2; i++ {
+			v2, s2 := replay(e.hist)
+			if s2 != nil {
+				s2.teardown()
+			}
+			if v2.fail == "" {
+				core.Count("flaky_verdict_dropped")
+				v = v2
+				break
+			}
+		}
+		if v.fail != "" {
+			confirmed[sig]++
+		}
+	}
+	if v.fail == "" {
+		core.Count("verdict:ok")
+	} else {
+		core.Count("verdict:" + v.sig)
+	}
+	return core.Result{Impl: v.obs, Fail: v.fail, Sig: v.sig}
+}
